@@ -28,6 +28,9 @@ from collections import Counter
 HERE = os.path.dirname(os.path.dirname(os.path.abspath(__file__)))
 REPO = os.path.realpath(os.environ.get("LENA_REPO", "/repo"))
 ALL_IDS = ["C%02d" % i for i in range(1, 21)]
+# evidence/ and replays/ describe /repo itself; a run against another tree (the mutant
+# self-test sets LENA_REPO to a scratch worktree) writes under the git-ignored .scratch/
+OUT_ROOT = HERE if REPO == "/repo" else os.path.join(HERE, ".scratch", "other_tree")
 
 
 def recipe_hash(recipe):
@@ -149,7 +152,7 @@ def classify(pid, violations, known):
 
 
 def write_replay(pid, v):
-    d = os.path.join(HERE, "replays", pid)
+    d = os.path.join(OUT_ROOT, "replays", pid)
     os.makedirs(d, exist_ok=True)
     h = recipe_hash({"r": v["recipe"], "m": v["mech"]})
     path = os.path.join(d, h + ".json")
@@ -248,8 +251,8 @@ def do_check(pid, tier, seed, jobs):
         "wall_s": round(wall, 2),
         "violations": len(unknown),
     }
-    os.makedirs(os.path.join(HERE, "evidence"), exist_ok=True)
-    with open(os.path.join(HERE, "evidence", pid + ".json"), "w") as f:
+    os.makedirs(os.path.join(OUT_ROOT, "evidence"), exist_ok=True)
+    with open(os.path.join(OUT_ROOT, "evidence", pid + ".json"), "w") as f:
         json.dump(ev, f, indent=1, sort_keys=True, default=repr)
 
     print("%s tier=%s seed=%d: %d cases, %d distinct non-trivial, %d monitor events, "
